@@ -355,7 +355,10 @@ def int_kinds(prog: Program, res: Result) -> None:
         return
     ref = max((s_ for _c, s_ in sets), key=len)
     odd = [(c, s_) for c, s_ in sets if s_ != ref]
-    if odd:
+    plain = {"int", "integer"}
+    if odd and not all(s_ < ref and ref <= plain for _c, s_ in odd):
+        res.undecided("INTKIND", fi.short, desc, prog.loc(fi, odd[0][0]), f"type sets {sorted(odd[0][1])} and {sorted(ref)} are not comparable by name")
+    elif odd:
         c, s_ = odd[0]
         res.bad("INTKIND", fi.short, desc, prog.loc(fi, c),
                 f"`{ast.unparse(c.args[0])}` is tested against {sorted(s_)} while another value of the function is tested against {sorted(ref)}: a size of "
